@@ -34,7 +34,11 @@ TRACKERS = [U("SystemPopulation.change_state_accept"), U("SystemPopulation.chang
             U("NaiveBlocking.change_state_accept"), U("NaiveBlocking.change_state_block"), U("NaiveBlocking.change_state_release"),
             U("MatrixBlocking.change_state_accept"), U("MatrixBlocking.change_state_block"), U("StateTracker.timestamp"),
             U("SystemPopulation.initialise"), U("NodePopulation.initialise"), U("NaiveBlocking.initialise"),
-            U("NodePopulationSubset.initialise"), U("GroupedNodePopulation.initialise")]
+            U("NodePopulationSubset.initialise"), U("GroupedNodePopulation.initialise"),
+            U("NodePopulation.change_state_block"), U("NodePopulationSubset.change_state_block"),
+            U("GroupedNodePopulation.change_state_block"), U("NodeClassMatrix.change_state_block")] + [
+            U("StateTracker.change_state_renege", rc) for rc in ["SystemPopulation", "NodePopulation", "NodePopulationSubset",
+                                                                  "GroupedNodePopulation", "NodeClassMatrix", "NaiveBlocking"]]
 
 ROUTERS = [U("Direct.next_node"), U("Leave.next_node"), U("Probabilistic.next_node"), U("Cycle.next_node"),
            U("JoinShortestQueue.next_node"), U("JoinShortestQueue.next_node", "LoadBalancing"), U("ProcessBased.next_node"),
